@@ -88,7 +88,8 @@ class C08(Engine):
             sp = dedup_splices(sp)
         elif kind == "non_ascii":
             a = rng.randrange(L + 1)
-            sp = [[a, a, rng.choice(["é", "世界", "ñ", " ", " ", "𝒳"])]]
+            sp = [[a, a, rng.choice(["\u00e9", "\u4e16\u754c", "\u00f1", "\u00a0", "\u2003", "\U0001d4b3", "\x0c", "\x0b", "\x1c", "\x1e", "\x85",
+                                     "\u2028", "\u2029", "\ufeff"])]]
         elif kind == "lexical":
             # things that yield multi-highlight / lexical diagnostics
             a = content.find(";\n")
@@ -144,6 +145,14 @@ class C08(Engine):
                 argv.append("./" + argv[rng.randrange(len(argv))])
             elif r < 0.4:
                 argv.insert(rng.randrange(len(argv) + 1), f"d{rng.randrange(k)}")
+            if rng.random() < 0.2:
+                # a source reached through a symbolic link whose name differs from its target
+                j = rng.randrange(len(argv))
+                tgt = argv[j] if argv[j].count("/") == 1 and not argv[j].startswith("./") else None
+                if tgt:
+                    ext = tgt.rsplit(".", 1)[-1]
+                    tree[f"link{i % 7}.{ext}"] = "->" + tgt
+                    argv.append(f"link{i % 7}.{ext}")
             yield idx, {"kind": "multi", "fault": "multi_file", "tree": tree, "ops": [{"op": "cli", "argv": ["-f", "json"] + argv}]}
             idx += 1
         # synthetic diagnostic lists through both formatters under permutations
@@ -315,7 +324,18 @@ class C08(Engine):
         if tw.get("killed"):
             return []
         t = tw["ops"][0]
+        byname = {}
+        for pth, v in walk_tree(sc.get("tree") or {}):
+            if isinstance(v, str) and v.startswith("@"):
+                byname[pth] = core.nlines(file_of(sc, v[1:]).get("content", "").encode("utf-8", "surrogateescape"))
         for rep in o.get("reports") or []:
+            for f in rep["files"]:
+                # the number of lines is counted by the harness from what the read seam delivered, never taken from the
+                # code under test (which could mis-split the content and then agree with itself)
+                key = (f.get("path") or "")
+                key = key[2:] if key.startswith("./") else key
+                if key in byname:
+                    f["nlines"] = byname[key]
             vs += self.w1_w2(rep, kind)
         if kind == "emit":
             # W4: identical report text whatever the emission order
@@ -411,6 +431,14 @@ class C08(Engine):
         self.run_bulk(self.scenarios(), chunk=8)
         self.run_bulk(self.api_scenarios(), chunk=24)
         self.recheck_killed()
+
+
+def walk_tree(tree, prefix=""):
+    for k, v in sorted(tree.items()):
+        if isinstance(v, dict):
+            yield from walk_tree(v, prefix + k + "/")
+        else:
+            yield prefix + k, v
 
 
 def canon_order(order):
